@@ -282,3 +282,105 @@ func VerifC15Wire() {
 		vrt.Assert(getty.VerifPendingFutures() == 0, "c15/wire/reply-leaves-no-bookkeeping")
 	}
 }
+
+// c15SlowManager: the call for one branch stays inside the manager until the gate
+// opens; every branch has its own outcome.
+type c15SlowManager struct {
+	rm.ResourceManager
+	typ    branch.BranchType
+	slow   int64
+	gate   chan struct{}
+	status map[int64]branch.BranchStatus
+	fails  map[int64]bool
+	calls  []int64
+}
+
+func (m *c15SlowManager) GetBranchType() branch.BranchType { return m.typ }
+func (m *c15SlowManager) do(r rm.BranchResource) (branch.BranchStatus, error) {
+	m.calls = append(m.calls, r.BranchId)
+	if r.BranchId == m.slow {
+		<-m.gate
+	}
+	if m.fails[r.BranchId] {
+		return m.status[r.BranchId], errors.New("manager failed")
+	}
+	return m.status[r.BranchId], nil
+}
+func (m *c15SlowManager) BranchCommit(ctx context.Context, r rm.BranchResource) (branch.BranchStatus, error) {
+	return m.do(r)
+}
+func (m *c15SlowManager) BranchRollback(ctx context.Context, r rm.BranchResource) (branch.BranchStatus, error) {
+	return m.do(r)
+}
+
+// VerifC15Overlap: two phase-two requests overlap in time: the first is still inside
+// its resource manager when the second (same or another global transaction, same or
+// another phase, another branch) arrives. Each is routed to the manager once and
+// answered with its own branch's outcome, the second without waiting for the first.
+func VerifC15Overlap() {
+	RegisterProcessor()
+	types := []branch.BranchType{branch.BranchTypeAT, branch.BranchTypeTCC, branch.BranchTypeXA}
+	typ := types[vrt.Choice("type", 3)]
+	m := &c15SlowManager{typ: typ, slow: 1, gate: make(chan struct{}), status: map[int64]branch.BranchStatus{}, fails: map[int64]bool{}}
+	rm.GetRmCacheInstance().RegisterResourceManager(m)
+	var replies []c15Reply
+	vrt.Redirect((*getty.GettyRemotingClient).SendAsyncResponse, func(_ *getty.GettyRemotingClient, id int32, msg interface{}) error {
+		replies = append(replies, c15Reply{id, msg})
+		return nil
+	})
+	sameXid := vrt.Bool("same.global.transaction")
+	rb1, rb2 := vrt.Choice("first.phase", 2) == 1, vrt.Choice("second.phase", 2) == 1
+	done := func(rb bool) branch.BranchStatus {
+		if rb {
+			return branch.BranchStatusPhasetwoRollbacked
+		}
+		return branch.BranchStatusPhasetwoCommitted
+	}
+	retry := func(rb bool) branch.BranchStatus {
+		if rb {
+			return branch.BranchStatusPhasetwoRollbackFailedRetryable
+		}
+		return branch.BranchStatusPhasetwoCommitFailedRetryable
+	}
+	// outcomes: the first finishes, the second is to be retried - or the other way round
+	if vrt.Bool("first.is.to.be.retried") {
+		m.status[1], m.status[2] = retry(rb1), done(rb2)
+	} else {
+		m.status[1], m.status[2] = done(rb1), retry(rb2)
+	}
+	x2 := "x"
+	if !sameXid {
+		x2 = "y"
+	}
+	r1 := c15Req{id: 101, xid: "x", branchID: 1, typ: typ, resource: "r", rollback: rb1}
+	r2 := c15Req{id: 102, xid: x2, branchID: 2, typ: typ, resource: "r", rollback: rb2}
+	go getty.GetGettyClientHandlerInstance().OnMessage(nil, r1.message())
+	vrt.Settle()
+	vrt.Assert(len(m.calls) == 1 && len(replies) == 0, "c15/overlap/first-request-is-inside-its-manager")
+	go getty.GetGettyClientHandlerInstance().OnMessage(nil, r2.message())
+	vrt.Settle()
+	status := func(rp c15Reply) (branch.BranchStatus, int64, bool) {
+		switch b := rp.msg.(type) {
+		case message.BranchCommitResponse:
+			return b.BranchStatus, b.BranchId, true
+		case message.BranchRollbackResponse:
+			return b.BranchStatus, b.BranchId, true
+		}
+		return 0, 0, false
+	}
+	vrt.Reach("c15/overlap/second-delivered")
+	vrt.Assert(len(m.calls) == 2 && m.calls[1] == 2, "c15/overlap/second-request-reaches-its-manager")
+	vrt.Assert(len(replies) == 1 && replies[0].id == 102, "c15/overlap/second-request-answered-without-waiting")
+	if len(replies) == 1 {
+		st, br, ok := status(replies[0])
+		vrt.Assert(ok && br == 2 && st == m.status[2], "c15/overlap/second-reply-carries-its-own-outcome")
+	}
+	close(m.gate)
+	vrt.Settle()
+	vrt.Assert(len(m.calls) == 2, "c15/overlap/each-request-routed-once")
+	vrt.Assert(len(replies) == 2, "c15/overlap/both-answered")
+	if len(replies) == 2 {
+		st, br, ok := status(replies[1])
+		vrt.Assert(replies[1].id == 101 && ok && br == 1 && st == m.status[1], "c15/overlap/first-reply-carries-its-own-outcome")
+	}
+}
